@@ -487,6 +487,13 @@ func runStreams(prop, tier string, seed int64, streams []Stream, budget int, cor
 				}
 				si := runImpl(&sh)
 				sm, _ := runModel([]Script{sh})
+				if len(sm) != 1 || classify(si, sm[0]) != kind {
+					// timing-dependent: this run of the (shrunk) script does not show the failure;
+					// record the original script with the outputs that did
+					sh = s
+					si = impl[i]
+					sm = [][]string{model[i]}
+				}
 				f := Finding{Kind: kind, Stream: s.Stream, Class: s.Class, Lines: sh.Lines, Impl: si, FirstDiff: fd, Repro: repro}
 				if len(sm) == 1 {
 					f.Model = sm[0]
